@@ -409,5 +409,11 @@ def pmap(fn, items, procs=None, chunk=None):
     import multiprocessing as mp
     procs = procs or NCPU
     chunk = chunk or max(1, min(500, len(items) // (procs * 4)))
-    with mp.get_context("fork").Pool(procs) as pool:
-        return pool.map(fn, items, chunksize=chunk)
+    import gc
+    gc.collect()
+    gc.freeze()        # keep the parent's heap out of the children's collections (copy-on-write storms)
+    try:
+        with mp.get_context("fork").Pool(procs) as pool:
+            return pool.map(fn, items, chunksize=chunk)
+    finally:
+        gc.unfreeze()
